@@ -27,6 +27,8 @@ import Np.Model.ShapeFns
 import Np.Model.IndexFns
 import Np.Model.SelectFns
 import Np.Model.BilinearFns
+import Np.Model.AdvIndexFns
+import Np.Model.ConstFns
 /-! line-protocol driver: one JSON case per line on stdin, the model's answer per line on stdout -/
 open Lean Np Np.Shape
 
@@ -496,6 +498,83 @@ def runCase (j : Json) : E Json := do
     | "inner" => pure (showP (BilinearFns.innerVecP (← jNat (← j.getObjVal? "n"))))
     | "matmul" => pure (showP (BilinearFns.matmulAnyP (← jNats (← j.getObjVal? "sa")) (← jNats (← j.getObjVal? "sb"))))
     | _ => throw s!"unknown bilinear function {fn}"
+  | "advindexfn" =>
+    -- integer-array indexing, take, repeat with an array of counts (Np/Model/AdvIndexFns.lean)
+    let fn ← (← j.getObjVal? "fn").getStr?
+    let shape ← jNats (← j.getObjVal? "shape")
+    let jInts := fun (x : Json) => do (← jList x).mapM fun v => v.getInt?
+    let jIx := fun (x : Json) => do
+      pure ((← jNats (← x.getObjVal? "shape")), (← jInts (← x.getObjVal? "data")))
+    let show1 := fun (r : Option (List Nat × List Nat)) => match r with
+      | some (s, idx) => Json.mkObj [("status", "ok"), ("kind", "gather"), ("shape", toJson s), ("idx", toJson idx)]
+      | none => Json.mkObj [("status", "ok"), ("kind", "none")]
+    match fn with
+    | "mixed" => do
+      let items ← (← jList (← j.getObjVal? "items")).mapM fun it => match it with
+        | .null => (pure none : E (Option (List Nat × List Int)))
+        | _ => do pure (some (← jIx it))
+      pure (show1 (AdvIndexFns.mixedIndexF shape items))
+    | "take" => pure (show1 (AdvIndexFns.takeF shape (← jIx (← j.getObjVal? "ix")) (← jNat (← j.getObjVal? "axis"))))
+    | "repeats" => pure (show1 (AdvIndexFns.repeatsF shape (← jNats (← j.getObjVal? "reps")) (← jNat (← j.getObjVal? "axis"))))
+    | _ => throw s!"unknown advanced index function {fn}"
+  | "constfn" =>
+    -- numpy's semantics on integer / rational value arrays (Np/Model/ConstFns.lean)
+    let fn ← (← j.getObjVal? "fn").getStr?
+    let jInts := fun (x : Json) => do (← jList x).mapM fun v => v.getInt?
+    let none_ := Json.mkObj [("status", "ok"), ("kind", "none")]
+    let showNat := fun (r : Option (List Nat × List Nat)) => match r with
+      | some (s, v) => Json.mkObj [("status", "ok"), ("kind", "values"), ("shape", toJson s), ("values", toJson v)]
+      | none => none_
+    let showInt := fun (r : Option (List Nat × List Int)) => match r with
+      | some (s, v) => Json.mkObj [("status", "ok"), ("kind", "values"), ("shape", toJson s), ("values", toJson v)]
+      | none => none_
+    let showBool := fun (r : Option (List Nat × List Bool)) => match r with
+      | some (s, v) => Json.mkObj [("status", "ok"), ("kind", "values"), ("shape", toJson s), ("values", toJson v)]
+      | none => none_
+    let frac := fun (x : Json) => do
+      match ← jList x with
+      | [a, b] => pure ((← a.getInt?), (← jNat b))
+      | _ => throw "bad fraction"
+    match fn with
+    | "argmax" | "argmin" | "amax" | "amin" | "count_nonzero" | "any" | "all" => do
+      let shape ← jNats (← j.getObjVal? "shape")
+      let xs ← jInts (← j.getObjVal? "xs")
+      let axis ← jNat (← j.getObjVal? "axis")
+      match fn with
+      | "argmax" => pure (showNat (ConstFns.argmaxAxis shape xs axis))
+      | "argmin" => pure (showNat (ConstFns.argminAxis shape xs axis))
+      | "amax" => pure (showInt (ConstFns.amaxAxis shape xs axis))
+      | "amin" => pure (showInt (ConstFns.aminAxis shape xs axis))
+      | "count_nonzero" => pure (showNat (ConstFns.countNonzeroAxis shape xs axis))
+      | "any" => pure (showBool (ConstFns.anyAxis shape xs axis))
+      | _ => pure (showBool (ConstFns.allAxis shape xs axis))
+    | "argmax_flat" => do
+      let xs ← jInts (← j.getObjVal? "xs")
+      pure (Json.mkObj [("status", "ok"), ("kind", "scalar"), ("value", match ConstFns.argmaxFlat xs with | some i => toJson i | none => Json.null)])
+    | "argmin_flat" => do
+      let xs ← jInts (← j.getObjVal? "xs")
+      pure (Json.mkObj [("status", "ok"), ("kind", "scalar"), ("value", match ConstFns.argminFlat xs with | some i => toJson i | none => Json.null)])
+    | "nonzero" => do
+      let shape ← jNats (← j.getObjVal? "shape")
+      let xs ← jInts (← j.getObjVal? "xs")
+      pure (Json.mkObj [("status", "ok"), ("kind", "lists"), ("values", toJson (ConstFns.nonzeroF shape xs))])
+    | "divmod" => do
+      let a ← jInts (← j.getObjVal? "a")
+      let b ← jInts (← j.getObjVal? "b")
+      pure (Json.mkObj [("status", "ok"), ("kind", "divmod"),
+        ("q", toJson (List.zipWith ConstFns.floorDiv a b)), ("r", toJson (List.zipWith ConstFns.pyMod a b))])
+    | "round" => do
+      let qs ← (← jList (← j.getObjVal? "qs")).mapM frac
+      pure (Json.mkObj [("status", "ok"), ("kind", "round"), ("floor", toJson (qs.map ConstFns.floorQ)),
+        ("ceil", toJson (qs.map ConstFns.ceilQ)), ("rint", toJson (qs.map ConstFns.rintQ))])
+    | "isclose" => do
+      let a ← (← jList (← j.getObjVal? "a")).mapM frac
+      let b ← (← jList (← j.getObjVal? "b")).mapM frac
+      let rtol ← frac (← j.getObjVal? "rtol")
+      let atol ← frac (← j.getObjVal? "atol")
+      pure (Json.mkObj [("status", "ok"), ("kind", "values"), ("shape", toJson [a.length]),
+        ("values", toJson (List.zipWith (fun x y => ConstFns.iscloseQ x y rtol atol) a b))])
+    | _ => throw s!"unknown constant function {fn}"
   | "bilinear" =>
     let a ← parseArr (← j.getObjVal? "a")
     let b ← parseArr (← j.getObjVal? "b")
